@@ -253,6 +253,26 @@ def is_head_index(e):
     return isinstance(e, ast.Constant) and e.value == 0 and not isinstance(e.value, bool)
 
 
+def datapoint(cl, frame):
+    """an `add_datapoint(label, sub_label, datapoint)` call, arguments bound by position or keyword and spelled canonically (locals, aliases
+    and helper parameters substituted): -> dict(label=constant value | text, sub=text, elts=[ast] | None (the datapoint is not a tuple display),
+    data=ast) or None when an argument is missing"""
+    from .norm import FrameEnv, subst
+    names = ['list_label', 'sub_label', 'datapoint']
+    b = dict(zip(names, cl.args))
+    for kw in cl.keywords:
+        if kw.arg in names:
+            b[kw.arg] = kw.value
+    if len(b) != 3 or len(cl.args) + len([k for k in cl.keywords if k.arg]) != 3:
+        return None
+    env = FrameEnv(frame)
+    lab = subst(b['list_label'], env)
+    sub = subst(b['sub_label'], env)
+    data = subst(b['datapoint'], env)
+    return {'label': lab.value if isinstance(lab, ast.Constant) else ast.unparse(lab), 'sub': ast.unparse(sub).replace(' ', ''),
+            'elts': list(data.elts) if isinstance(data, ast.Tuple) else None, 'data': data}
+
+
 def canon_text(e, frame, keep=()):
     """spelling of an expression after substitution of single-definition locals, aliases and parameters of inlined frames"""
     from .norm import FrameEnv, subst
